@@ -1,4 +1,5 @@
-------------------------------- MODULE Tracer -------------------------------
+\* GENERATED from Tracer.tla by tools/gen_complex.py - do not edit
+------------------------------- MODULE CTracer -------------------------------
 (* The tracer of algopy as a transition system: recording of a straight-line       *)
 (* program over one input vector (Function nodes appended to the graph while        *)
 (* recording is on), re-evaluation from new inputs (CGraph.pushforward), the         *)
@@ -8,7 +9,7 @@
 (* tracer.py.  Values are exact: a heap cell holds, per direction, the Taylor        *)
 (* series of the value AND of its derivative with respect to every input cell        *)
 (* (forward-mode reference carried along), so that "J^T ybar" is known exactly.      *)
-EXTENDS Integers, Sequences, FiniteSets, TLC, TPS
+EXTENDS Integers, Sequences, FiniteSets, TLC, CTPS
 
 CONSTANTS N,             \* number of cells of each input vector
           NI,            \* number of independent input vectors (1 or 2): the second one is wrapped after an operation has been recorded
